@@ -252,7 +252,8 @@ def run(R):
         ok = bool(own) and all(fn.dominates(own[0][0], p) for p, _ in nxt)
         R.ob("C27.wait-order", fn, nxt[0][1], ok, "own stage drained before the next stage is waited on" if ok else "the next stage is waited on before this stage has drained: late items can be stranded downstream",
              sitekey=fn.qname.split("::")[-2] + "::wait", why="every item must pass through every later stage before pipeline() returns")
-    R.need("C27.wait-order", n, 2, "Pipe::wait functions with a downstream pipe")
+    n += rethrow_last(R, "C27.wait-order")
+    R.need("C27.wait-order", n, 3, "Pipe::wait functions with a downstream pipe")
 
     # ---- number of runners >= 1 ---------------------------------------------------------------------------------
     n = 0
@@ -274,3 +275,24 @@ def run(R):
             R.ob("C27.runners", fn, t.get("loc"), ok, "runner count %s has lower bound %s" % (bound["name"], lbs),
                  sitekey="runners", why="with zero runners the stage never runs and pipeline() returns without producing anything (zero-thread pools are supported)")
     R.need("C27.runners", n, 2, "runner loops in generator / single-stage Pipe::execute")
+
+
+def rethrow_last(R, inst):
+    """Generator Pipe::wait(): the ConcurrentTaskSet wait rethrows a captured stage exception, so
+    everything after it is skipped on that path; the downstream drain (which discards and releases
+    the queued items when an exception is pending) has to come first. Shared by C27 and C29."""
+    F = R.F
+    n = 0
+    for fn in F.fns:
+        if not re.search(r"^dispenso::detail::(TransformPipe|Pipe)::wait$", fn.qname):
+            continue
+        nxt = [(p, e) for p, e in fn.events() if e.get("k") == "call" and e.get("name") == "wait" and (field_name(lvalue_path(F, fn, e.get("obj"))) or "").endswith("::pipeNext_")]
+        rethrowing = [(p, e) for p, e in fn.events() if is_call(e, "dispenso::ConcurrentTaskSet::wait") or is_call(e, "dispenso::TaskSet::wait")]
+        if not nxt or not rethrowing:
+            continue
+        n += 1
+        ok2 = all(any(fn.dominates(np, p) for np, _ in nxt) for p, _ in rethrowing)
+        R.ob(inst, fn, rethrowing[0][1], ok2, "downstream stages are drained before the task set's (rethrowing) wait" if ok2 else
+             "the task set's wait(), which rethrows a stage exception, runs before the downstream drain: with an exception pending the queued items of later limited stages are never discarded (leaked)",
+             sitekey=fn.qname.split("::")[-2] + "::wait:rethrow-last", why="an exception in a stage must leave nothing queued or allocated behind")
+    return n
